@@ -30,6 +30,7 @@ func checkC09(e *RunEnv) *CheckResult {
 				t := pathArgTags(a, []string{x})
 				steps = append(steps, Run("restore", x).WithTags(t...), Run("restore", "--staged", x).WithTags(t...))
 			}
+			steps = append(steps, Run("restore", "g", "d", "ad/x").WithTags(pathArgTags(a, []string{"g", "d", "ad/x"})...), Run("restore", "--staged", "g", "d", "ad/x").WithTags(pathArgTags(a, []string{"g", "d", "ad/x"})...))
 			steps = append(steps, Run("restore", "d/x", "--staged").WithTags(pathArgTags(a, []string{"d/x"})...), Run("restore", "d", "--staged").WithTags(pathArgTags(a, []string{"d"})...))
 			for _, pr := range pairs {
 				t := pathArgTags(a, pr)
